@@ -80,6 +80,14 @@ def hostile_reads(ev, mods):
 
 
 def _arg(names, as_list=None):
+    """as_list: falsy -> a single name is given as a plain string; True -> always a list; 'tuple' / 'generator' / 'map'
+    -> the batch in that container (a Sequence, or a one-shot iterable the library has to read exactly once)."""
+    if as_list == "tuple":
+        return tuple(names)
+    if as_list == "generator":
+        return (n for n in list(names))
+    if as_list == "map":
+        return map(str, list(names))
     if len(names) > 1 or as_list:
         return list(names)
     return names[0]
